@@ -23,6 +23,10 @@ class Gram:
         self.pre = pre              # extra C++ (custom action specialisations) after the rule definitions
         self.mustif = set(mustif)   # names of rules ("G" = root) marked vh::mustif: the must_if control families ctl4/ctl5 raise from their failure()
 
+    def _mi(self, n):
+        # "N" in mustif: message + raise on failure;  "~N": message only (raise_on_failure = false)
+        return ", vh::mustif" if n in self.mustif else (", vh::mustsoft" if ("~" + n) in self.mustif else "")
+
     def cpp(self):
         ns = "g%d" % self.gid
         out = ["namespace %s {" % ns]
@@ -30,8 +34,8 @@ class Gram:
             out.append("struct %s;" % n)
         out.append("struct G;")
         for n, e in self.rules:
-            out.append("struct %s : %s, vh::named%s {};" % (n, e, ", vh::mustif" if n in self.mustif else ""))
-        out.append("struct G : %s, vh::named%s {};" % (self.root, ", vh::mustif" if "G" in self.mustif else ""))
+            out.append("struct %s : %s, vh::named%s {};" % (n, e, self._mi(n)))
+        out.append("struct G : %s, vh::named%s {};" % (self.root, self._mi("G")))
         out.append("}")
         if self.pre:
             out.append(self.pre.replace("@NS@", ns))
